@@ -917,7 +917,7 @@ Qed.
 (** * zeroNode / removeNode *)
 Definition zero_fields (x : node) : node :=
   x <| setAt := 0 |> <| changedAt := 0 |> <| recomputedAt := 0 |>
-    <| valid := true |> <| parents := [] |> <| children := [] |>
+    <| parents := [] |> <| children := [] |>
     <| observers := [] |> <| height := unset |> <| hAdj := unset |>.
 
 Lemma zeroNode_inv s n s' : zeroNode s n = Ok s' ->
@@ -1084,8 +1084,7 @@ Section zeroNode.
   Proof. znc height (unset : Z). Qed.
   Lemma hAdj_nd_zeroNode m : hAdj (nd s' m) = if decide (m = n) then unset else hAdj (nd s m).
   Proof. znc hAdj (unset : Z). Qed.
-  Lemma valid_nd_zeroNode m : valid (nd s' m) = if decide (m = n) then true else valid (nd s m).
-  Proof. znc valid (true : bool). Qed.
+  Lemma valid_nd_zeroNode m : valid (nd s' m) = valid (nd s m). Proof. znp. Qed.
   Lemma setAt_nd_zeroNode m : setAt (nd s' m) = if decide (m = n) then 0 else setAt (nd s m).
   Proof. znc setAt (0 : Z). Qed.
   Lemma changedAt_nd_zeroNode m : changedAt (nd s' m) = if decide (m = n) then 0 else changedAt (nd s m).
@@ -1159,8 +1158,7 @@ Section removeNode.
   Proof. rnp height_nd_zeroNode. Qed.
   Lemma hAdj_nd_removeNode m : hAdj (nd s' m) = if decide (m = n) then unset else hAdj (nd s m).
   Proof. rnp hAdj_nd_zeroNode. Qed.
-  Lemma valid_nd_removeNode m : valid (nd s' m) = if decide (m = n) then true else valid (nd s m).
-  Proof. rnp valid_nd_zeroNode. Qed.
+  Lemma valid_nd_removeNode m : valid (nd s' m) = valid (nd s m). Proof. rnp valid_nd_zeroNode. Qed.
   Lemma setAt_nd_removeNode m : setAt (nd s' m) = if decide (m = n) then 0 else setAt (nd s m).
   Proof. rnp setAt_nd_zeroNode. Qed.
   Lemma changedAt_nd_removeNode m : changedAt (nd s' m) = if decide (m = n) then 0 else changedAt (nd s m).
